@@ -7,7 +7,7 @@
    `price_run ... 0 fuel L0 N0` is the repaired Engine.price (a new level starts with Nl = 0). *)
 From Coq Require Import List ZArith QArith Qabs Bool.
 From Coq Require Import Permutation.
-From RV Require Import Base.QB Model.McStats Model.Mlmc Model.MlmcVec Proofs.C07_StatsLemmas Proofs.C05_Mlmc Proofs.C05_Vec.
+From RV Require Import Base.QB Model.McStats Model.Mlmc Model.MlmcVec Proofs.C07_StatsLemmas Proofs.C05_Mlmc Proofs.C05_Vec Proofs.C05_Fault.
 Import ListNotations.
 Open Scope Q_scope.
 
@@ -148,6 +148,46 @@ Theorem C05_results_permutation_invariant :
     /\ res_var_level v == res_var_level w /\ res_kurtosis v == res_kurtosis w /\ res_cl v == res_cl w.
 Proof. exact results_perm_invariant. Qed.
 
+(* ---------------------------------------------------------------- wave 7: an exception raised by a simulation; the pool callback
+   Model/MlmcVec.v gloop_f: simulation_path() raises at iteration fi of level fl in pass fp (KeyboardInterrupt or any exception;
+   Engine.price has no handler).  For ALL fault points and all oracles: either the point is never reached and the run IS the
+   uninterrupted one, or the exception leaves Engine.price (nothing is returned) and the state the engine object still exposes
+   is: levels before fl finished the pass (exactly their N_l samples), level fl holds fi more simulated rows than N_l counts
+   followed by dNl - fi placeholders, later levels still hold their placeholders; on EVERY level the first N_l rows are exactly
+   the N_l simulated samples.  (That arrays are longer than N_l there is why returning them -- seeded change C05_g -- violates C05.) *)
+Theorem C05_abort_exposed_state :
+  forall (A B C : Type) (rowof : nat -> nat -> A) (coef : nat -> list A -> C) (adj : nat -> C -> A -> B) zA zB cost alloc conv
+         garbA garbB level_max fp fl fi fuel L0 N0,
+    match gprice_run_f rowof coef adj zA zB cost alloc conv garbA garbB level_max fp fl fi fuel L0 N0 with
+    | AReturn o => o = gprice_run rowof coef adj zA zB cost alloc conv garbA garbB level_max fuel L0 N0
+    | ARaised e => all_ix (exposed_at rowof coef adj fl fi) 0 (glevels e)
+                   /\ all_ix (fun l v => (gN v <= gcnt v)%nat /\ exists P, grows v = gsamples rowof l (gN v) ++ P) 0 (glevels e)
+    end.
+Proof. intros A B C. exact (@abort_spec A B C). Qed.
+
+(* the map_async callback `for it, path in res: statistics.add(current + it, ...)`: for ANY order of the (iteration, row) pairs
+   in which every iteration index 0..k-1 occurs once, the array (a = rows of the earlier passes, b = the k rows extend() padded)
+   ends as a followed by the row handed with iteration 0, 1, .., k-1: nothing dropped, duplicated or overwritten, no zero row left *)
+Theorem C05_callback_merge :
+  forall (A : Type) start k (res : list (nat * A)) (a b : list A) d,
+    Permutation (map fst res) (seq 0 k) -> length a = start -> length b = k ->
+    merge start res (a ++ b) = a ++ map (fun i => lookup d i res) (seq 0 k).
+Proof. intros A. exact (@merge_spec A). Qed.
+
+(* ... cut into ANY chunks (several callback invocations) ... *)
+Theorem C05_callback_chunks :
+  forall (A : Type) start (chunks : list (list (nat * A))) s,
+    fold_left (fun s c => merge start c s) chunks s = merge start (concat chunks) s.
+Proof. intros A. exact (@merge_chunks A). Qed.
+
+(* ... hence it IS the single-process loop of the model (gdraw) storing at iteration i the row the pool handed with index i,
+   which is the engine C05_mp_rows_permutation is about *)
+Theorem C05_callback_is_single_process_loop :
+  forall (A : Type) l start c k (res : list (nat * A)) (a b : list A) d,
+    Permutation (map fst res) (seq 0 k) -> length a = start -> length b = k ->
+    merge start res (a ++ b) = gdraw (fun _ n => lookup d (n - c) res) l start c k (a ++ b).
+Proof. intros A. exact (@merge_is_gdraw A). Qed.
+
 (* non-vacuity, and the behaviour before the repair (F-C05-1, fixed by d6e63ca on fix-mc) *)
 Example C05_nonvacuous_repaired :
   exists s v, w_run 0 = Converged s /\ nth_error (levels s) 3 = Some v /\
@@ -182,6 +222,22 @@ Example C05_mp_nonvacuous :
               = Converged s /\ nth_error (glevels s) 0 = Some v /\ map (fun r => Qred (fst r)) (grows v) = [2; 1; 4].
 Proof. split; [simpl; apply perm_swap|]. vm_compute. eexists. eexists. repeat split. Qed.
 
+(* non-vacuity of the wave-7 theorems: initial level 1, one path each; second pass asks for 1 and 2 more; the simulation of the
+   first extra path of level 0 raises: level 1 (N = 1) is exposed with two zero placeholders behind its sample; a fault point
+   that is never reached gives the uninterrupted run *)
+Example C05_abort_nonvacuous :
+  (exists e v0 v1, vfault_tab (1, 0, 0)%nat 1 w5_samples [1; 2; 4] [[2; 3]; [2; 3]]%Z [true] 1 1 1 10 1 1 = ARaised e /\
+     glevels e = [v0; v1] /\ gN v0 = 1%nat /\ gN v1 = 1%nat /\ gcnt v1 = 1%nat /\
+     map (fun r => Qred (fst (comp 0 (fst r)))) (grows v1) = [3; 0; 0] /\ skipn 1 (map fst (grows v1)) = [[zero_row]; [zero_row]])
+  /\ vfault_tab (7, 0, 0)%nat 1 w5_samples [1; 2; 4] [[2; 3]; [2; 3]]%Z [true] 1 1 1 10 1 1
+     = AReturn (vrun_tab 1 0 [] w5_samples [1; 2; 4] [[2; 3]; [2; 3]]%Z [true] 1 1 1 10 1 1).
+Proof. split; [vm_compute; do 3 eexists; repeat split|vm_compute; reflexivity]. Qed.
+(* two chunks completing out of order: iterations 2, 0 then 1 behind one earlier row *)
+Example C05_callback_nonvacuous :
+  Permutation (map fst [(2, 30); (0, 10); (1, 20)]%nat) (seq 0 3) /\
+  fold_left (fun s c => merge 1 c s) [[(2, 30); (0, 10)]; [(1, 20)]]%nat [7; 0; 0; 0]%nat = [7; 10; 20; 30]%nat.
+Proof. split; [|reflexivity]. simpl. apply (Permutation_cons_app [0%nat; 1%nat] [] 2%nat). simpl. apply Permutation_refl. Qed.
+
 Print Assumptions C05_rows_are_samples.
 Print Assumptions C05_price_is_sum_of_means.
 Print Assumptions C05_results_from_same_rows.
@@ -195,8 +251,14 @@ Print Assumptions C05_vec_component_price.
 Print Assumptions C05_vec_fixed_level_variant.
 Print Assumptions C05_mp_rows_permutation.
 Print Assumptions C05_results_permutation_invariant.
+Print Assumptions C05_abort_exposed_state.
+Print Assumptions C05_callback_merge.
+Print Assumptions C05_callback_chunks.
+Print Assumptions C05_callback_is_single_process_loop.
 Print Assumptions C05_nonvacuous_repaired.
 Print Assumptions C05_stale_manager_before_repair.
 Print Assumptions C05_phantom_sample_before_repair.
 Print Assumptions C05_vec_cv_nonvacuous.
 Print Assumptions C05_mp_nonvacuous.
+Print Assumptions C05_abort_nonvacuous.
+Print Assumptions C05_callback_nonvacuous.
